@@ -25,13 +25,13 @@ CHECKS = {
             "searched sequences are symbolic over a 3-symbol alphabet; sequence lengths 0..4 "
             "(thorough 0..6). Every feasible path of NodeDeref/NodeDerefAssign/NodeDerefSlice/"
             "substr/sublist/find/find_last/insert_at/delete_at is executed and compared with the "
-            "sequence model by solver obligations; exhaustive within the bounds."),
+            "sequence model by solver obligations; exhaustive within the bounds. Lists in the positional operations have symbolic, possibly equal elements."),
     "C17": ("DESIGN.md C17",
             "Per year cell: month/day symbolic (date->number) and the day number symbolic over the "
             "year's interval (number->date), so every calendar day of each explored year is covered "
             "by ~12 path classes; quick = boundary years + 24 stride years, thorough = all 8100 "
             "years. Date arithmetic with symbolic day and offset in [-800,800]. Oracle: "
-            "datetime.date.toordinal."),
+            "datetime.date.toordinal. Time of day: quick = concrete sweep of all 86400 seconds on a ladder of days (outside the solver claim); thorough = one QF_BVFP obligation per day (3 days) obtained by tracing the real to_oa_date/to_date on floating point terms, decided by cvc5."),
 }
 
 CHECKS["C20"] = ("DESIGN.md C20",
@@ -41,7 +41,7 @@ CHECKS["C20"] = ("DESIGN.md C20",
     "character, where the count is a z3 term over the separator characters. Planted faults "
     "(undefined name, error statement, division by zero, type error, syntax fault, fault inside a "
     "called function, fault inside a user module) behind symbolic layout: error positions, stack "
-    "trace entry and module name are checked the same way.")
+    "trace entry and module name are checked the same way. 24 templates put the faulty token behind a symbolic gap inside an expression (operands, call arguments, pipeline/member targets, comprehension sources).")
 
 CHECKS["C14"] = ("DESIGN.md C14",
     "Every token boundary of 56 seed programs gets a symbolic layout separator (length <= 2, "
@@ -50,7 +50,7 @@ CHECKS["C14"] = ("DESIGN.md C14",
     "input; int literals as decimal/hex/HEX/binary/underscored numerals with symbolic digits must "
     "evaluate to the value of the digits; strings single-quoted, double-quoted and \\xHH-escaped "
     "with symbolic characters must lex to the same token; != vs <>, trailing semicolons and "
-    "redundant parentheses on 12 expression seeds evaluated over symbolic int operands.")
+    "redundant parentheses on 12 expression seeds evaluated over symbolic int operands. Tight renderings (literal/identifier/bracket directly followed by each operator) against the spaced rendering.")
 
 CHECKS["C02"] = ("DESIGN.md C02",
     "Every ordered pair (thorough: triple) of the 14 binary operators in `u a op1 u b op2 u c`, every "
@@ -59,7 +59,7 @@ CHECKS["C02"] = ("DESIGN.md C02",
     "and compared for all values with a reference evaluator written from the property's precedence "
     "table; add/sub/mul/div/mod natives over unbounded symbolic ints against the defining "
     "equations of exact arithmetic; int/decimal/NULL kind matrix; `x is not P` against "
-    "`not (x is P)` for every identifier of the token alphabet and a value pool of every kind.")
+    "`not (x is P)` for every identifier of the token alphabet and a value pool of every kind. Re-evaluation cells run the same parsed chain twice with independent symbolic operands (no state may be kept in the tree).")
 
 CHECKS["C07"] = ("DESIGN.md C07",
     "Pairs and triples of same-kind values with symbolic payloads (unbounded ints, integral "
@@ -67,7 +67,7 @@ CHECKS["C07"] = ("DESIGN.md C07",
     "characters, symbolic booleans, dates, int lists) through <, >, ==, !=, <=, >=, compare, min, "
     "max of the real interpreter against the defined order, with the strict-order laws as solver "
     "obligations; sorted() on lists of <= 4 (thorough 6) [key, tag] pairs with symbolic keys "
-    "(permutation, ordered, stable; default/key/cmp); set and map-key enumeration order.")
+    "(permutation, ordered, stable; default/key/cmp); set and map-key enumeration order. sorted() over equal-but-distinguishable elements (1 vs 1.0) with separating keys; sets/map keys mixing ints and decimals.")
 
 CHECKS["C06"] = ("DESIGN.md C06",
     "All 64 kind pairs and 13 kind triples of data values with symbolic payloads (unbounded ints, "
@@ -78,7 +78,7 @@ CHECKS["C06"] = ("DESIGN.md C06",
     "consistency on every pair; sets/maps of 3 (thorough 4) pool elements in both insertion orders: "
     "no two equal elements, cardinality, membership, lookup, removal and container equality agree "
     "for every equal representative. The finite-domain part is an exhaustive enumeration that the "
-    "solver merely drives.")
+    "solver merely drives. Equal containers are also used as elements/keys of other containers and their hashes compared.")
 
 CHECKS["C08"] = ("DESIGN.md C08",
     "Strings of length <= 3 (thorough 5) over unconstrained characters (hashed positions: a "
@@ -87,7 +87,7 @@ CHECKS["C08"] = ("DESIGN.md C08",
     "real __repr__ -> real Lexer -> parse -> evaluate must return an equal value of the same type "
     "that renders to the same text; sets/maps of distinct symbolic ints render identically in "
     "every insertion order. Decimal rendering (repr(float) is C code) is a concrete ladder and "
-    "outside the solver claim.")
+    "outside the solver claim. Operation sequences (3, thorough 4 steps) on one set/map object are rendered again and compared with a freshly built equal value.")
 
 CHECKS["C18"] = ("DESIGN.md C18",
     "s (<= 3, thorough 4), t, a, b (<= 2) as strings of unconstrained symbolic characters through "
@@ -96,7 +96,7 @@ CHECKS["C18"] = ("DESIGN.md C18",
     "all scalar values, join/unlines/unwords/q, s() with every format suffix and sprintf with "
     "symbolic surrounding text and values. split/escape_pattern/join inverse goes through the C re "
     "module and is a finite-domain enumeration (13 separators incl. every regex metacharacter, "
-    "subjects over separator characters and 'a' up to length 3/4).")
+    "subjects over separator characters and 'a' up to length 3/4). Adjacent placeholders with possibly empty values; join with empty parts.")
 
 CHECKS["C19"] = ("DESIGN.md C19",
     "sum/prod/reduce/reverse/zip/enumerate/pairs/chunks/flatten/filter/map_list/range/interval/"
@@ -106,7 +106,7 @@ CHECKS["C19"] = ("DESIGN.md C19",
     "abs/sign unbounded; the eight 32-bit bitwise natives with symbolic 32-bit words as native z3 "
     "bit-vectors and every shift count 0..40. Finite-domain parts (solver drives an exhaustive "
     "enumeration): set algebra over a 6-value mixed domain, unique, mean/median(even) under all "
-    "permutations, gcd/lcm on [-20,20]^2, pow witnesses beyond 2^53.")
+    "permutations, gcd/lcm on [-20,20]^2, pow witnesses beyond 2^53. Set algebra on a set that has been enumerated and mutated (sequences of 3, thorough 4 operations).")
 
 CHECKS["C13"] = ("DESIGN.md C13",
     "Every function of the (secure, legacy) base environment (219 natives and module functions) with "
@@ -115,7 +115,7 @@ CHECKS["C13"] = ("DESIGN.md C13",
     "payloads symbolic in [-9, 9] (edge values are solutions of the code's branch conditions), other "
     "kinds from small pools selected by symbolic indices. Every feasible path must end in a value "
     "or a CklRuntimeError carrying a language value; other exception classes and confirmed budget "
-    "exhaustion are violations.")
+    "exhaustion are violations. String pools include placeholder texts ({x#12}) so that interpolation cannot loop.")
 
 CHECKS["C16"] = ("DESIGN.md C16",
     "Argument preservation: C13's enumeration of functions, forms and kind tuples (symbolic int "
@@ -126,7 +126,7 @@ CHECKS["C16"] = ("DESIGN.md C16",
     "non-mutating library calls) read back and compared with a reference heap model; 18 "
     "result-independence programs. The quantification over functions/kinds/operation sequences is "
     "an enumeration driven by the solver; the solver's own contribution is path coverage inside "
-    "each call.")
+    "each call. Prototype chains: member assignment changes exactly the targeted object.")
 
 CHECKS["C05"] = ("DESIGN.md C05",
     "12 (thorough 15) template shapes of do/catch v/catch all/finally nests (depth 2, thorough 3) at "
@@ -135,7 +135,7 @@ CHECKS["C05"] = ("DESIGN.md C05",
     "each (error value, undefined name, division by zero, return, break, continue), error values of "
     "several kinds, catch values, return value. The program text runs through the real parser and "
     "interpreter; result / escaping error value and the event log are compared for all values with "
-    "a reference interpreter built on Python exceptions and try/finally.")
+    "a reference interpreter built on Python exceptions and try/finally. Control exits inside finally parts must not swallow an error in flight; errors unwind through calls with short and long arguments.")
 
 CHECKS["C04"] = ("DESIGN.md C04",
     "10 (thorough 12) template shapes of for/while nests (depth 2, thorough 3), loops in functions, "
@@ -144,7 +144,7 @@ CHECKS["C04"] = ("DESIGN.md C04",
     "conditions; compared for all values with a reference interpreter (Python loops). Iteration "
     "order of lists, sets, map keys/values/entries/destructured pairs and strings over symbolic "
     "collections. 16 comprehension forms x iterable kinds against their explicit-loop expansion, both "
-    "run by the real interpreter on the same symbolic collection.")
+    "run by the real interpreter on the same symbolic collection. Map loops carry fault points too; bare `return;` yields NULL.")
 
 CHECKS["C03"] = ("DESIGN.md C03",
     "6 scoping template programs (shadowing over 4 scope levels with run-time selectors for 'this "
@@ -154,7 +154,7 @@ CHECKS["C03"] = ("DESIGN.md C03",
     "environment chains; Args.setArgs for 0..3 parameters, optional rest parameter and up to 3 "
     "(thorough 4) arguments each positional or named (p0/p1/p2/unknown) against the binding model; "
     "27 call forms (named, defaults, rest, list/map spread, pipeline, method calls with prototype "
-    "chains) with symbolic argument values.")
+    "chains) with symbolic argument values. Defaults are exercised across several calls (a fresh value per call).")
 
 CHECKS["C12"] = ("DESIGN.md C12",
     "98 driver programs send sets of strings through every iteration/conversion/spread/destructuring/"
@@ -163,7 +163,7 @@ CHECKS["C12"] = ("DESIGN.md C12",
     "of maps a symbolic permutation; result, output and error must equal those of the canonical "
     "order for every permutation (sizes 3, thorough 4). Counterexamples are replayed by running the "
     "program in fresh processes under up to 32 PYTHONHASHSEEDs until two outputs differ. The model "
-    "(any order) over-approximates CPython's actual orders.")
+    "(any order) over-approximates CPython's actual orders. Sets of mixed scalars, sorted() with ties under key/cmp, and sorted-order expectations for spread/destructuring.")
 
 CHECKS["C10"] = ("DESIGN.md C10",
     "Histories of 3 (thorough 4) commands over a 24-command alphabet (define, assign, read, call, "
@@ -197,7 +197,7 @@ CHECKS["C09"] = ("DESIGN.md C09",
     "defining or assigning a name x 3 identifiers (incl. checkerlang_secure_mode): afterwards the "
     "binder still refuses 12 OS natives and module code still refuses to read files. The reachable-"
     "value closure over all bundled modules is a concrete graph walk; that no OS call happens at run "
-    "time is not a solver question. Level claimed is modest.")
+    "time is not a solver question. Level claimed is modest. Sequences of a non-secure and a secure interpreter in one fresh process (shared state) are checked the same way.")
 
 NA = {}
 
